@@ -44,6 +44,7 @@ type c03Case struct {
 	XRets int               `json:"xrets,omitempty"`
 	NArgs int               `json:"nargs,omitempty"`
 	NilFS bool              `json:"nil_fs,omitempty"` // the host passes a nil fs.FS
+	Free  bool              `json:"no_instruction_budget,omitempty"`
 }
 
 func (k c03Case) options(w *bytes.Buffer) []goat.RunOption {
@@ -80,8 +81,10 @@ func (k c03Case) run() (verdict string, errText string) {
 		for n, d := range k.Files {
 			sys[n] = &fstest.MapFile{Data: []byte(d)}
 		}
-		goat.VerifSetBudget(200000)
-		defer goat.VerifSetBudget(-1)
+		if !k.Free {
+			goat.VerifSetBudget(200000)
+			defer goat.VerifSetBudget(-1)
+		}
 		var err error
 		var hostFS fs.FS = sys
 		if k.NilFS {
@@ -428,6 +431,29 @@ func runC03(c *Ctx) error {
 		c.Rep.Count("eval-cyclic-print")
 		if verdict != "" {
 			c.Rep.Violate(Violation{Kind: "crash", Cut: "no-escape", Input: k, Impl: verdict, Oracle: "returns to the host with values or a staged error"})
+		}
+	}
+	// recursion: every script call nests Go calls, and a Go stack overflow is fatal - a terminating recursion millions
+	// of calls deep (functions, methods, function values; no instruction budget here) returns, with its value or an error
+	for _, src := range []string{
+		"func f(n int) int {\n\tif n == 0 {\n\t\treturn 0\n\t}\n\treturn f(n-1) + 1\n}\nx := f(%d)\nprintln(x)",
+		"type T struct {\n\ta int\n}\nfunc (t *T) m(n int) int {\n\tif n == 0 {\n\t\treturn 0\n\t}\n\treturn t.m(n-1) + 1\n}\nt := &T{}\ny := t.m(%d)\nprintln(y)",
+		"var g func(int) int\nfunc f(n int) int {\n\tif n == 0 {\n\t\treturn 0\n\t}\n\th := g\n\treturn h(n-1) + 1\n}\ng = f\nx := f(%d)\nprintln(x)",
+		"func even(n int) bool {\n\tif n == 0 {\n\t\treturn true\n\t}\n\treturn odd(n - 1)\n}\nfunc odd(n int) bool {\n\tif n == 0 {\n\t\treturn false\n\t}\n\treturn even(n - 1)\n}\nprintln(even(%d))",
+	} {
+		for _, depth := range []int{1000, 100000, 3000000} {
+			k := c03Case{Kind: "eval", Src: fmt.Sprintf(src, depth), Free: true}
+			c.Pending(map[string]any{"kind": "eval", "src": k.Src, "note": "a terminating recursion, no instruction budget"})
+			verdict, et := k.run()
+			c.PendingDone()
+			c.Rep.Oracle["no-escape"]++
+			c.Rep.Count("eval-deep-recursion")
+			if verdict == "" && depth <= 100000 && et != "" && et != "<nil>" {
+				verdict = "a recursion of depth " + fmt.Sprint(depth) + " failed: " + et[:min(len(et), 200)]
+			}
+			if verdict != "" {
+				c.Rep.Violate(Violation{Kind: "crash", Cut: "no-escape", Input: k, Impl: verdict, Oracle: "returns to the host with values or a staged error"})
+			}
 		}
 	}
 	// terminating programs: the loops that run inside one instruction (container iterators, key-list maintenance,
